@@ -61,7 +61,7 @@ func H_C06_Cycle() {
 	h.checkReads("cycle/reads-before")
 
 	// compaction settings: which tables are selected is up to the solver
-	h.db.compactedMaxSizeBytes = vrt.U64("maxsize")
+	h.db.compactedMaxSizeBytes = h.chooseMaxSize("maxsize")
 	h.db.compactionRatio = vRatios[vrt.Choose("ratio", len(vRatios))]
 	h.db.compactionFileThreshold = vrt.Range("threshold", 0, 2)
 
@@ -89,7 +89,7 @@ func H_C06_Cycle() {
 
 	// a second cycle with new settings, a later flush and a restart must not change anything either
 	if h.cycles > 0 && vrt.Choose("second", 2) == 1 {
-		h.db.compactedMaxSizeBytes = vrt.U64("maxsize2")
+		h.db.compactedMaxSizeBytes = h.chooseMaxSize("maxsize2")
 		h.db.compactionFileThreshold = 0
 		h.compactionCycle()
 		h.checkReads("cycle/reads-unchanged-by-second-compaction")
